@@ -89,7 +89,9 @@ Definition multi_execute (P : params) (seeds : seeding) (m : mode) (maxdiff : Z)
   match m with
   | Separate => Ok (mkOut f1 (Some f2) None)
   | _ =>
-    do js <- results_resolve (f1 ++ f2) maxdiff;
+    (* after repair F12: `filteredFirstPassRows + [row for row in filteredSecondPassRows if row not in filteredFirstPassRows]`:
+       in `best` mode f1 is filtered from first ++ second pass rows, so a query's second-pass row can be in both lists *)
+    do js <- results_resolve (f1 ++ filter (fun w => negb (row_in w f1)) f2) maxdiff;
     let joined := fst js in let sep := snd js in
     match m with
     | Best => let jids := map qid joined in
